@@ -1,6 +1,9 @@
 use std::hash::Hash;
 
+#[cfg(not(cached_verif))]
 use dashmap::mapref::one::Ref;
+#[cfg(cached_verif)]
+use crate::verif_rt::sync::dashmap::mapref::one::Ref;
 
 /// KeyValueRef contains DashMap's Ref [`dashmap::mapref::one::Ref`] which internally holds
 /// a `RwLockReadGuard` for the shard. It is returned as a response to `get_ref` method of [`crate::cache::cached::CacheD`].
